@@ -21,11 +21,13 @@ import (
 	"os"
 	"sync"
 	"sync/atomic"
+	"syscall"
 	"testing"
 	"time"
 
 	"github.com/hashicorp/yamux"
 	"go.temporal.io/server/common/log"
+	"go.temporal.io/server/common/log/tag"
 	"google.golang.org/grpc"
 	"pgregory.net/rapid"
 
@@ -57,6 +59,35 @@ type c10tCase struct {
 }
 
 type c10tNoListener struct{}
+
+// c10tFatalLogger is a no-op logger that remembers Fatal calls: Temporal's zap-backed logger, which the proxy runs with,
+// exits the process on Fatal, so a Fatal while the pool is alive means the whole proxy dies.
+type c10tFatalLogger struct {
+	log.Logger
+	n    *atomic.Int64
+	last *atomic.Value
+}
+
+func (l c10tFatalLogger) Fatal(msg string, _ ...tag.Tag) {
+	l.n.Add(1)
+	l.last.Store(msg)
+}
+
+// c10tFlakyListener lets the harness make the pool's next Accept calls fail (descriptor exhaustion: EMFILE) without
+// touching the real listener underneath.
+type c10tFlakyListener struct {
+	net.Listener
+	fail atomic.Int64
+}
+
+func (l *c10tFlakyListener) Accept() (net.Conn, error) {
+	if l.fail.Load() > 0 {
+		l.fail.Add(-1)
+		time.Sleep(5 * time.Millisecond)
+		return nil, &net.OpError{Op: "accept", Net: "tcp", Err: syscall.EMFILE}
+	}
+	return l.Listener.Accept()
+}
 
 func (c10tNoListener) OnConnectionListUpdate(map[string]session.ManagedMuxSession) {}
 
@@ -251,7 +282,10 @@ func c10tRun(c c10tCase) (res c10tResult) {
 	} else {
 		cd.ConnectionType = config.ConnTypeMuxServer
 	}
-	mgr, err := NewGRPCMuxManager(ctx, "vf-tcp", cd, c10tNoListener{}, grpc.NewServer(), log.NewNoopLogger())
+	var fatals atomic.Int64
+	var lastFatal atomic.Value
+	lg := c10tFatalLogger{Logger: log.NewNoopLogger(), n: &fatals, last: &lastFatal}
+	mgr, err := NewGRPCMuxManager(ctx, "vf-tcp", cd, c10tNoListener{}, grpc.NewServer(), lg)
 	for attempt := 0; err != nil && c.Role == "receiver" && attempt < 8; attempt++ {
 		// the port picked above may have been taken by another process in the meantime: pick another one
 		l, lerr := net.Listen("tcp", "127.0.0.1:0")
@@ -261,11 +295,21 @@ func c10tRun(c c10tCase) (res c10tResult) {
 		addr = l.Addr().String()
 		_ = l.Close()
 		cd.MuxAddressInfo.ConnectionString = addr
-		mgr, err = NewGRPCMuxManager(ctx, "vf-tcp", cd, c10tNoListener{}, grpc.NewServer(), log.NewNoopLogger())
+		mgr, err = NewGRPCMuxManager(ctx, "vf-tcp", cd, c10tNoListener{}, grpc.NewServer(), lg)
 	}
 	if err != nil {
 		res.inconclusive = "NewGRPCMuxManager: " + err.Error()
 		return
+	}
+	// receiver role: the harness can make Accept fail
+	var flaky *c10tFlakyListener
+	if mm, ok := mgr.(*multiMuxManager); ok {
+		if mp, ok := mm.muxProvider.(*muxProvider); ok {
+			if rp, ok := mp.connProvider.(*receivingConnProvider); ok {
+				flaky = &c10tFlakyListener{Listener: rp.listener}
+				rp.listener = flaky
+			}
+		}
 	}
 	go mgr.Start()
 
@@ -426,6 +470,20 @@ func c10tRun(c c10tCase) (res c10tResult) {
 			}
 		case "wait":
 			time.Sleep(time.Duration(o.Ms) * time.Millisecond)
+		case "acceptErr":
+			// the pool's next Accept calls fail (EMFILE) although nothing is shutting down; a session dies so that the
+			// pool has to accept again
+			if flaky != nil {
+				flaky.fail.Add(int64(1 + o.I%3))
+				if l := liveConns(); len(l) > 0 {
+					l[0].kill()
+				}
+				res.classes["accept_failed_while_the_pool_is_alive"] = true
+			}
+		}
+		if n := fatals.Load(); n > 0 {
+			res.viol = fmt.Sprintf("while the pool is alive the proxy logged at Fatal level (%v): with the logger the proxy runs with that ends the whole process instead of freeing the slot", lastFatal.Load())
+			return
 		}
 	}
 	if !c.ShutdownAsIs {
@@ -509,6 +567,10 @@ func c10tRun(c c10tCase) (res c10tResult) {
 			return
 		}
 	}
+	if n := fatals.Load(); n > 0 {
+		res.viol = fmt.Sprintf("while the pool is alive the proxy logged at Fatal level (%v): with the logger the proxy runs with that ends the whole process instead of freeing the slot", lastFatal.Load())
+		return
+	}
 	// ---- shutdown
 	cancel()
 	select {
@@ -565,7 +627,7 @@ func c10tRun(c c10tCase) (res c10tResult) {
 	return res
 }
 
-const c10tRule = "tcp part: the pool as NewGRPCMuxManager assembles it (establisher.go / receiver.go providers, real yamux over loopback TCP - plain or TLS with CA verification -, real time), N=1-3; the harness is the peer: listener that serves, accepts-and-hangs-up or is down (establishing role), dialers holding N+extra connections, optionally behind one peer that connected first and never says a word (receiving role); histories of kill one / kill all / refuse / down / up / wait / vanish (a peer stops answering but leaves the connection open: thorough tier and one committed replay), then either healing + shutdown or shutdown in whatever state the history left (peer possibly unreachable); oracles: registered sessions never exceed N (sampled every 5 ms), the pool is full again (N sessions for 500 ms without interruption) within 60 s once the peer is reachable, after shutdown the manager finishes, no connection still answers, nothing is registered and the listener is gone; non-trivial = a session was killed or the peer was unreachable before healing was checked"
+const c10tRule = "tcp part: the pool as NewGRPCMuxManager assembles it (establisher.go / receiver.go providers, real yamux over loopback TCP - plain or TLS with CA verification -, real time), N=1-3; the harness is the peer: listener that serves, accepts-and-hangs-up or is down (establishing role), dialers holding N+extra connections, optionally behind one peer that connected first and never says a word (receiving role); histories of kill one / kill all / refuse / down / up / wait / accept error (the pool's own Accept fails with EMFILE, receiving role) / vanish (a peer stops answering but leaves the connection open: thorough tier and one committed replay), then either healing + shutdown or shutdown in whatever state the history left (peer possibly unreachable); oracles: nothing is logged at Fatal level while the pool is alive (the proxy's logger exits the process on Fatal), registered sessions never exceed N (sampled every 5 ms), the pool is full again (N sessions for 500 ms without interruption) within 60 s once the peer is reachable, after shutdown the manager finishes, no connection still answers, nothing is registered and the listener is gone; non-trivial = a session was killed or the peer was unreachable before healing was checked"
 
 func TestVF_C10_TCP(t *testing.T) {
 	const part = "tcp"
@@ -630,13 +692,16 @@ func TestVF_C10_TCP(t *testing.T) {
 		n := rapid.IntRange(1, 5).Draw(rt, "nops")
 		for i := 0; i < n; i++ {
 			kinds := []string{"kill", "kill", "killAll", "refuse", "accept", "down", "up", "wait", "wait"}
+			if c.Role == "receiver" {
+				kinds = append(kinds, "acceptErr")
+			}
 			if vfshared.Scale(0, 1) == 1 && i == 0 {
 				kinds = append(kinds, "vanish") // thorough tier only (a case with it takes a minute); quick runs one committed replay
 			}
 			k := rapid.SampledFrom(kinds).Draw(rt, "k")
 			o := c10tOp{K: k}
 			switch k {
-			case "kill":
+			case "kill", "acceptErr":
 				o.I = rapid.IntRange(0, 3).Draw(rt, "i")
 			case "wait":
 				o.Ms = rapid.SampledFrom([]int{20, 200, 1200}).Draw(rt, "ms")
